@@ -29,6 +29,7 @@ type vfC19Case struct {
 }
 
 type vfC19Res struct {
+	second   bool // a second session was started in the same filter
 	started  bool
 	endEvent string
 }
@@ -276,6 +277,7 @@ func vfC19Run(cs vfC19Case, res *vfC19Res) string {
 		time.Sleep(20 * time.Millisecond)
 	}
 	probe := []byte("<<ZMODEM-PROBE-OUTPUT>>")
+	probeFrom := sess.termOut.len()
 	sess.shellOutput(probe)
 	in := []byte("<<typed-after-zmodem>>")
 	sess.typeInput(in)
@@ -289,6 +291,47 @@ func vfC19Run(cs vfC19Case, res *vfC19Res) string {
 	if !okOut || !okIn {
 		return fmt.Sprintf("1.5 s after the end event (%s) with a quiet server the terminal was not handed back: server output passes=%v, typed input passes=%v (helper=%s server=%s reactive=%v ctrl-c=%d)",
 			res.endEvent, okOut, okIn, cs.Helper, cs.Server, cs.Reactive, cs.CtrlCMs)
+	}
+	// normal pass-through from here on: the first output after the session gives the cursor back (one show-cursor sequence in
+	// front of it, part of the session's end); what follows arrives exactly as it was printed
+	_ = probeFrom
+	time.Sleep(50 * time.Millisecond)
+	probe2 := []byte("<<SECOND-PROBE-AFTER-ZMODEM>>\r\n")
+	from2 := sess.termOut.len()
+	sess.shellOutput(probe2)
+	vfWaitLen(sess.termOut, from2+len(probe2), 2*time.Second)
+	time.Sleep(30 * time.Millisecond)
+	if got := sess.termOut.bytes()[from2:]; !bytes.Equal(got, probe2) {
+		return fmt.Sprintf("after the session ended (%s) server output no longer passes unchanged: printed %q, the terminal got %s", res.endEvent, probe2, vfShort(got, 80))
+	}
+	// and the next start header starts a session of its own
+	if cs.Helper != "missing" {
+		startedBefore := 0
+		if b, err := os.ReadFile(logFile); err == nil {
+			startedBefore = bytes.Count(b, []byte("started"))
+		}
+		os.Setenv("FAKEZM_MODE", "talk")
+		if cs.Upload {
+			if _, err := sess.filter.OneTimeUpload([]string{upFile}); err != nil {
+				return "" // the one-time upload of the first session is still pending: no second session to ask for
+			}
+		}
+		sess.shellOutput([]byte(hdr))
+		deadline := time.Now().Add(4 * time.Second)
+		again := false
+		for time.Now().Before(deadline) && !again {
+			if b, err := os.ReadFile(logFile); err == nil && bytes.Count(b, []byte("started")) > startedBefore {
+				again = true
+			}
+			time.Sleep(10 * time.Millisecond)
+		}
+		if !again {
+			return fmt.Sprintf("a second start header after the first session had ended (%s) started no helper", res.endEvent)
+		}
+		res.second = true
+		// end it: Ctrl-C, and wait for the hand-back
+		sess.typeInput([]byte{0x03})
+		time.Sleep(1200 * time.Millisecond)
 	}
 	return ""
 }
